@@ -121,7 +121,7 @@ pub open spec fn elems(ns: NarrowedShape) -> Option<Seq<Shape>> {
 // Shapes the stubbed arms are about (the statement says nothing on functions and modules).
 pub uninterp spec fn func_compat(l: FuncShapeDef, r: FuncShapeDef) -> bool;
 pub uninterp spec fn module_compat(l: ModuleShape, r: ModuleShape) -> bool;
-// phase 2
+// named constraints: not interpreted by this oracle (the contracts that use compat require cref_free shapes)
 pub uninterp spec fn cref_compat(a: Shape, b: Shape) -> bool;
 
 // compat(a, b): exemplar shape a admits shape b (property C06, reference "Shape Constraints"):
@@ -243,7 +243,7 @@ pub proof fn lemma_sz_tuple_seq(v: TupleShape)
     lemma_sz_fields_seq(v, v@.len()); assert(v@.take(v@.len() as int) =~= v@);
 }
 
-// no reference to a named constraint anywhere in the shape (phase 1; function and module shapes are opaque here)
+// no reference to a named constraint anywhere in the shape (function and module shapes are opaque here)
 pub uninterp spec fn func_cref_free(d: FuncShapeDef) -> bool;
 pub uninterp spec fn module_cref_free(d: ModuleShape) -> bool;
 pub open spec fn cref_free(s: Shape) -> bool
